@@ -184,6 +184,18 @@ def flag_sets(r, thorough):
         b = base.copy()
         b[1] = b[1] + np.eye(d)
         out.append(('two-traces', d, b, dict(istraceless=False)))
+        # non-Hermitian elements with purely imaginary / complex traces (the trace test must look at both parts)
+        Pi = np.zeros((d, d), dtype=complex)
+        Pi[0, 0] = 1j
+        out.append(('imag-trace diag(i,0)', d, np.array([Pi, base[1]]), dict(istraceless=False)))
+        out.append(('complex-trace', d, np.array([(0.3 + 1j) * Pi / 1j + 0.2 * base[2], base[1]]), dict(istraceless=False)))
+        out.append(('imag-trace scalar i*1', d, np.array([1j * np.eye(d), base[1], base[2]]), dict(istraceless=True)))
+        out.append(('imag-trace two', d, np.array([Pi, 1j * np.eye(d), base[1]]), dict(istraceless=False)))
+        for fac, ok in ((0.5, True), (2.0, False)):
+            b = base[1:].copy()
+            b[0] = b[0] + 1j * fac * atol_t * np.eye(d) / d
+            b[0][0, 0] += 0.0
+            out.append(('imag-trace%+.1f' % fac, d, b, dict(istraceless=ok)))
         # random non-Hermitian, non-orthonormal, non-traceless
         b = r.standard_normal((3, d, d)) + 1j * r.standard_normal((3, d, d))
         out.append(('random', d, b, dict(isherm=False, isorthonorm=False, istraceless=False)))
@@ -222,6 +234,12 @@ def flag_cases(ctx):
             if got[k] != v:
                 fails.append(dict(kind='prop', observable='flag ' + k, signature='c14-flag-' + k,
                                   detail='%s: %s is %s on a set built to make it %s' % (tag, k, got[k], v), input=inp))
+        tf = truth_flags(b)
+        for k in ('isherm', 'istraceless'):
+            if tf[k] is not None and got[k] != tf[k]:
+                fails.append(dict(kind='prop', observable='flag ' + k, signature='c14-flag-' + k,
+                                  detail='%s: %s is %s but the independent evaluation on the plain array gives %s (traces %s)'
+                                         % (tag, k, got[k], tf[k], np.round(np.einsum('kii->k', b), 12).tolist()[:4]), input=inp))
         if len(b) > 1:
             G = gram(b)
             dev = np.abs(G - np.eye(len(b))).max()          # complex modulus: real AND imaginary parts
@@ -595,6 +613,10 @@ def partial_cases(ctx):
                ('imag-overlap s+,is+', np.array([(g[1] + 1j * g[1 + d * (d - 1) // 2]), 1j * (g[1] + 1j * g[1 + d * (d - 1) // 2])]), False, 2),
                ('imag-overlap small', np.array([g[1] + 1j * g[2], (g[3] if d > 2 else g[1] - 1j * g[2]) + 1e-9j * (g[1] + 1j * g[2])]), None, 2),
                ('not-traceless-demanded', np.array([g[1] + 0.5 * np.eye(d), g[2]]), True, None),
+               ('imag-trace-demanded diag(i,0)', np.array([np.diag([1j] + [0.0] * (d - 1)), g[1]]), True, 3),
+               ('complex-trace-demanded', np.array([np.diag([0.3 + 1j] + [0.0] * (d - 1)), g[1]]), True, 3),
+               ('imag-trace-demanded small', np.array([g[2] + 1e-9j * np.diag([1.0] + [0.0] * (d - 1)), g[1]]), True, 3),
+               ('imag-scalar-demanded i*1', np.array([1j * np.eye(d), g[1]]), True, None),
                ('two-identities-demanded', np.array([g[1] + 0.5 * np.eye(d)]), True, 3)]
         for tag, el, trq, want in rej:
             inp = dict(case='from_partial', elems=el, traceless=trq, labels=None, tags=dict(kind=tag, d=d))
@@ -605,7 +627,9 @@ def partial_cases(ctx):
                 msg = str(e)
                 code = 2 if 'not orthonormal' in msg else 3 if 'not traceless' in msg else 9
             G = gram(el / np.linalg.norm(el, axis=(1, 2))[:, None, None])
-            must = 2 if np.abs(G - np.eye(len(el))).max() > 1e-10 else 3 if trq else None
+            eln = el / np.linalg.norm(el, axis=(1, 2))[:, None, None]
+            tl = truth_flags(eln)['istraceless']
+            must = 2 if np.abs(G - np.eye(len(el))).max() > 1e-10 else 3 if (trq and tl is False) else None
             if code != must:
                 fails.append(dict(kind='prop', observable='from_partial/rejection', signature='c14-partial-rejection',
                                   detail='%s (d=%d): exception code %s, expected %s' % (tag, d, code, must), input=inp))
@@ -674,6 +698,7 @@ def _arr(x):
 
 
 def replay(ctx, rep):
+    warnings.filterwarnings('ignore', message='.*not hermitian.*')
     inp = rep.get('input')
     if not inp:
         return False, 'replay names a broken obligation: %s' % rep.get('observable')
@@ -690,7 +715,16 @@ def replay(ctx, rep):
         except ValueError as e:
             if dev > 1e-10 and 'not orthonormal' in str(e):
                 return True, 'replay: non-orthonormal set (complex Gram deviation %.3g) is rejected' % dev
+            if tr is True and 'not traceless' in str(e) and \
+                    truth_flags(elems / np.linalg.norm(elems, axis=(1, 2))[:, None, None])['istraceless'] is False:
+                return True, 'replay: non-traceless set is rejected when a traceless basis is demanded'
             return False, 'replay: from_partial raises %s' % e
+        if tr is True and dev <= 1e-10:
+            tl = truth_flags(elems / np.linalg.norm(elems, axis=(1, 2))[:, None, None])['istraceless']
+            if tl is False:
+                trc = np.einsum('kii->k', elems / np.linalg.norm(elems, axis=(1, 2))[:, None, None])
+                return False, ('replay reproduces: from_partial(traceless=True) ACCEPTS a set that is not traceless '
+                               '(traces %s)' % np.round(trc, 12).tolist())
         if dev > 1e-10:
             return False, ('replay reproduces: from_partial ACCEPTS a set whose complex Gram matrix deviates from 1 by %.3g '
                            '(real part %.3g, imaginary part %.3g)' % (dev, np.abs((G - np.eye(len(elems))).real).max(), np.abs(G.imag).max()))
@@ -731,6 +765,10 @@ def replay(ctx, rep):
             if indep is not None and bool(B.isorthonorm) != indep:
                 return False, ('replay reproduces: isorthonorm is %s but the complex Gram matrix deviates from 1 by %.3g '
                                '(imaginary part %.3g, tolerance %.3g)' % (B.isorthonorm, dev, np.abs(G.imag).max(), atol_o))
+        tl = truth_flags(b)['istraceless']
+        if tl is not None and bool(B.istraceless) != tl:
+            return False, ('replay reproduces: istraceless is %s but the traces are %s (independent evaluation: %s)'
+                           % (B.istraceless, np.round(np.einsum('kii->k', b), 12).tolist(), tl))
         if 'want' in inp and bool(B.iscomplete) != bool(inp['want']):
             return False, 'replay reproduces: iscomplete is %s, independent SVD says %s' % (B.iscomplete, inp['want'])
         return True, 'replay: flags isherm=%s isorthonorm=%s istraceless=%s iscomplete=%s agree with the independent predicates' % (B.isherm, B.isorthonorm, B.istraceless, B.iscomplete)
